@@ -116,7 +116,7 @@ def run(chk):
                        fact={"return_may_alias": [f"{p}.{part}" for p, part in aliases], "return_kind": s.ret_kind},
                        expect="returned value shares no circuit object / graph / node view / registry with a parameter",
                        nontrivial=True)
-    chk.floor("functions analysed for purity/freshness", n_funcs, 90)
+    chk.floor("functions analysed for purity/freshness", n_funcs, 80)
     chk.floor("functions with a Circuit/BlackBox/graph parameter", n_with_tracked, 50)
 
     # derived mutator table == documented table
@@ -149,8 +149,8 @@ def run(chk):
             if isinstance(n, _ast.Attribute) and n.attr == "__dict__":
                 reflection.append((rel, n.lineno, "__dict__"))
     chk.ob("C19.no-reflection", "package::setattr/exec/eval/__dict__", not reflection, fact={"sites": reflection}, expect="none (soundness assumption of the effect analysis)")
-    chk.floor("Circuit(...) construction sites seen", ctor_sites, 18)
-    chk.floor(".copy() sites seen", copy_sites, 15)
+    chk.floor("Circuit(...) construction sites seen", ctor_sites, 10)
+    chk.floor(".copy() sites seen", copy_sites, 8)
     chk.floor("call sites visited", an.call_sites, 400)
     chk.extra.update({"call_sites": an.call_sites, "resolved_call_sites": an.resolved_sites, "mutator_call_sites_on_parameter_state": an.mutator_sites,
                       "fixpoint_rounds": an.rounds, "circuit_constructor_sites": ctor_sites, "copy_sites": copy_sites,
